@@ -247,7 +247,9 @@ func compare19(c *core.Ctx, mk func() op19, mkSplit splitOp, what string) {
 	} else if want := h19.DB.Dialector.Explain(dry.sql, dry.vars...); dry.err == nil && explained != want && len(tosqlVars) == len(dry.vars) {
 		add("ToSQL string %q is not Explain(SQL, Vars) = %q", explained, want)
 	}
-	if len(realEvents) == 0 {
+	if dry.noMain {
+		c.Inc("ops_without_an_exposed_statement")
+	} else if len(realEvents) == 0 {
 		c.Inc("real_sent_no_statement")
 		if dry.sql != "" && dry.err == nil && realOut.err == nil {
 			add("dry run exposes %q but the real run sent no statement", dry.sql)
@@ -278,7 +280,7 @@ func compare19(c *core.Ctx, mk func() op19, mkSplit splitOp, what string) {
 		c.Violation(what, map[string]interface{}{"chain": desc, "problems": problems, "dry_sql": dry.sql, "dry_vars": renderVars(dry.vars)})
 		return
 	}
-	if len(realEvents) > 0 {
+	if len(realEvents) > 0 && !dry.noMain && dry.sql != "" {
 		c.Shape(what, strings.Fields(dry.sql)[0], len(dry.vars), len(realEvents), shapeOfSQL(dry.sql))
 		c.Inc("compared_with_real_statement")
 		if c.WantSample() && len(dry.vars) > 2 {
@@ -401,7 +403,7 @@ func run19(c *core.Ctx) {
 	{
 		seed := c.R.U64()
 		fin := core.Pick(c.R, []string{"Row", "RawRow", "TableRow", "SubQueryTwice", "SubQueryTwice", "SubQueryTwiceInOne", "FirstOrCreateMissing", "FirstOrCreateMissing", "FirstOrInitMissing",
-			"LateError", "LateError"})
+			"LateError", "LateError", "ScanSmaller", "ScanSmaller", "Batches"})
 		mk := func() op19 {
 			return func(db *gorm.DB) (outcome, string) {
 				g := newGen(core.NewRand(seed))
@@ -424,6 +426,46 @@ func run19(c *core.Ctx) {
 						row.Scan(&v)
 					}
 					return outcome{sql: tx.Statement.SQL.String(), vars: tx.Statement.Vars, err: tx.Error, res: tx}, "db." + fin + "()"
+				case "ScanSmaller":
+					// Scan of a model's rows into a smaller struct (or into maps / a column type): the statement is
+					// built for the model, whatever the destination
+					tx := db.Model(&Tag{}).Where("c2 > ?", l1.val)
+					var res *gorm.DB
+					var d string
+					switch seed % 4 {
+					case 0:
+						var out []struct {
+							ID int64
+							C1 string
+						}
+						res, d = tx.Scan(&out), "Scan(&[]struct{ID; C1})"
+					case 1:
+						var out struct{ C2 int64 }
+						res, d = tx.Scan(&out), "Scan(&struct{C2})"
+					case 2:
+						var out []map[string]interface{}
+						res, d = tx.Scan(&out), "Scan(&[]map)"
+					default:
+						var out []Other
+						res, d = tx.Scan(&out), "Scan(&[]Other)"
+					}
+					return outcome{sql: res.Statement.SQL.String(), vars: res.Statement.Vars, err: nil, res: res}, "db.Model(&Tag{}).Where(c2 > ?)." + d
+				case "Batches":
+					// a create cut into batches (the batch size from a session flag or from CreateInBatches; the slice
+					// longer than one batch): several statements on handles of the operation's own
+					tags := make([]Tag, 5)
+					for i := range tags {
+						tags[i] = Tag{C1: fmt.Sprintf("b%d", i), C2: int64(i)}
+					}
+					var res *gorm.DB
+					d := "db.Session(&Session{CreateBatchSize: 2}).Create(&[5]Tag)"
+					if seed%2 == 0 {
+						res = db.Session(&gorm.Session{CreateBatchSize: 2}).Create(&tags)
+					} else {
+						res = db.CreateInBatches(&tags, 2)
+						d = "db.CreateInBatches(&[5]Tag, 2)"
+					}
+					return outcome{err: res.Error, res: res, noMain: true}, d
 				case "LateError":
 					// the operation fails after its main statement: a refusing after-hook, a Preload of a
 					// relation the model does not have. The real run has sent the statement by then, and a dry
